@@ -732,7 +732,11 @@ func genC02(r *Run) {
 				return
 			}
 			j := r.Rng.Intn(len(l.Labels))
-			switch r.Rng.Intn(4) {
+			switch r.Rng.Intn(6) {
+			case 4, 5:
+				if !regroupNames(l.Labels, j) {
+					l.Labels[j] = "regrouped.example"
+				}
 			case 0:
 				l.Labels[j] = "other.example"
 			case 1:
@@ -1147,6 +1151,27 @@ func oracleC06v4(r *Run, b []byte) {
 			}
 		}
 	}
+}
+
+// regroupNames moves a label across the boundary between two neighbouring names ("host.corp", "example.com" ->
+// "host", "corp.example.com"): the same labels in the same order, the same number of names - other names.
+func regroupNames(names []string, j int) bool {
+	if len(names) < 2 {
+		return false
+	}
+	if j+1 >= len(names) {
+		j = len(names) - 2
+	}
+	a, b := names[j], names[j+1]
+	if i := strings.LastIndexByte(a, '.'); i > 0 && b != "" && len(a)-i+len(b) <= 253 {
+		names[j], names[j+1] = a[:i], a[i+1:]+"."+b
+		return true
+	}
+	if i := strings.IndexByte(b, '.'); i > 0 && a != "" && len(a)+1+i <= 253 {
+		names[j], names[j+1] = a+"."+b[:i], b[i+1:]
+		return true
+	}
+	return false
 }
 
 // sweepSmallPayloads6: every option code the library knows, with EVERY payload of one and of two octets (all 65536
